@@ -127,6 +127,10 @@ def run(m, tier):
     r8 = rr.rule_semicolon(m, "C07.R8")
     r8.title = "no ';'-separated source line is dropped on the way to the parser (an erroneous statement on it would go unreported): " + r8.title
     results.append(r8)
+    from rules import regex_rules
+    r9 = regex_rules.label_name_rules(m, "C07.R9")
+    r9.title = "label / construct-name extraction takes exactly one label (blanks are significant in free form): digit-only garbage is not swallowed as a label-only line"
+    results.append(r9)
     expl = ("Decides narrow structural clauses of C07: wherever a message quotes a source line it is source_lines[linecount - 1] of the "
             "same reader whose linecount is printed; every FortranSyntaxError is raised with the function's reader parameter; the "
             "physical line counter is moved by exactly one per line taken/given back on every path and item spans are tied to it "
